@@ -146,6 +146,7 @@ struct Shared
 	uint64_t thread_ops;		  // ops issued from a caller thread other than the main thread
 	uint64_t thread_switches;  // op boundaries at which the issuing thread changed
 	uint64_t early_calls;	  // library calls made before main() whose results this run checked (static-initialisation-order fault)
+	uint64_t late_calls;	  // library calls made during static destruction whose results this run checked
 	uint64_t probes[MAX_PROBES];
 	double metrics[32];
 	uint8_t states[MAX_STATES / 8];
@@ -288,11 +289,14 @@ inline double ulps(double a, double b, double scale)
 }
 
 // static-initialisation-order fault (early.cpp): library calls made from a translation unit initialised before the library's
-static const int EARLY_SECTIONS = 4, EARLY_SLOTS = 32;
+static const int EARLY_SECTIONS = 5, EARLY_SLOTS = 32;
 struct EarlyRecord
 {
 	int ran[EARLY_SECTIONS], status[EARLY_SECTIONS], n[EARLY_SECTIONS];
 	double v[EARLY_SECTIONS][EARLY_SLOTS];
+	// the same calls repeated during static destruction of that child (after exit() has destroyed what the first round built)
+	int late_n[EARLY_SECTIONS];
+	double late_v[EARLY_SECTIONS][EARLY_SLOTS];
 };
 extern EarlyRecord g_early;
 void early_prepare();		   // worker start-up, after main: the same calls in the usual order (pristine child)
